@@ -83,6 +83,14 @@ fn go<T: BFieldCodec + Debug>(op: &str, s: &[BFieldElement]) -> String {
             }
             Err(_) => "ERR".to_string(),
         },
+        // decw: the sequence is `<n1> <n1 elements> <rest>`: decode the first part (a warm-up whose result is dropped: a large
+        // valid value, so that whatever the library remembers between calls is in a "seen something big" state), then measure
+        // the decoding of the rest exactly like decm
+        "decw" => {
+            let n1 = s[0].value() as usize;
+            let _ = panic::catch_unwind(|| drop(T::decode(&s[1..1 + n1])));
+            go::<T>("decm", &s[1 + n1..])
+        }
         "decm" | "decx" => {
             let base = CUR.load(Ordering::Relaxed);
             PEAK.store(base, Ordering::Relaxed);
@@ -121,6 +129,26 @@ fn run(op: &str, a: &[String]) -> String {
             let c: Vec<BFieldElement> = tfh::u64s(a).into_iter().map(BFieldElement::new).collect();
             let x: Vec<XFieldElement> = c.chunks(3).map(|w| XFieldElement::new([w[0], w[1], w[2]])).collect();
             format!("OK{}", nums(&Polynomial::new(x).encode()))
+        }
+        // the same with BORROWED storage (Polynomial::new_borrowed), alone and as the items of a Vec
+        "polybB" | "polybBv" => {
+            let c: Vec<BFieldElement> = tfh::u64s(a).into_iter().map(BFieldElement::new).collect();
+            let q = Polynomial::new_borrowed(Box::leak(c.into_boxed_slice()));
+            if op == "polybB" {
+                format!("OK{}", nums(&q.encode()))
+            } else {
+                format!("OK{}", nums(&vec![q.clone(), q].encode()))
+            }
+        }
+        "polyxB" | "polyxBv" => {
+            let c: Vec<BFieldElement> = tfh::u64s(a).into_iter().map(BFieldElement::new).collect();
+            let x: Vec<XFieldElement> = c.chunks(3).map(|w| XFieldElement::new([w[0], w[1], w[2]])).collect();
+            let q = Polynomial::new_borrowed(Box::leak(x.into_boxed_slice()));
+            if op == "polyxB" {
+                format!("OK{}", nums(&q.encode()))
+            } else {
+                format!("OK{}", nums(&vec![q.clone(), q].encode()))
+            }
         }
         "ntypes" => NUM_TYPES.to_string(),
         _ => {
